@@ -92,6 +92,9 @@ func (w *World) materialise(ka *keyAllocator) error {
 		if pos < n-1 {
 			parent = w.Certs[pos+1].C
 		}
+		if cp.SameName && parent != nil {
+			spec.RawSubject = parent.X.RawSubject
+		}
 		c, err := Issue(spec, parent)
 		if err != nil {
 			return err
